@@ -356,6 +356,116 @@ def offgrid_cases(tier):
     return out
 
 
+# round 5 (blind class of seed C10-7): expression TEXTS that contain a float sub-expression sympy evaluates while parsing
+# ('v/3.0' -> 0.333333333333333*v, 'v*(0.1 + 0.2)' -> 0.3*v with the Float 0.30000000000000004): the text round trips, the
+# printed form of the parsed expression does not (15 digits).  Handed over as an ExpressionScalar OBJECT (the constructors
+# copy it; the copy must keep the text), as text (control), and through with_parallel_channels (a template derived from
+# the expressions of an existing one).
+FVALS = ['v/3.0', 'v*(0.1 + 0.2)', 'a/7.0 + b']
+FDURS = ['d/3.0', 'd*(0.1 + 0.2)', 'd/7.0 + 1']
+FTIME = ['t*v/3.0', 't*(0.1 + 0.2) + v', 'sin(t/7.0)*v']
+
+
+def exprobj_cases(tier):
+    """a float-sub-expression text in every expression position of every class, as ExpressionScalar object / as text"""
+    out = []
+    n_txt = 3 if tier != 'quick' else 2
+    for j in range(n_txt):
+        fv, fd, ft = FVALS[j], FDURS[j], FTIME[j]
+        for sp in ('expr', 'str'):
+            if tier == 'quick' and sp == 'str' and j > 0:
+                continue
+            w = (lambda s: {'#expr': s}) if sp == 'expr' else (lambda s: s)
+            v, d, tt = w(fv), w(fd), w(ft)
+            tag = '%s:%s' % (sp, fv)
+
+            def add(label, *nodes, extra=()):
+                nodes = [dict(n) for n in nodes]
+                try:
+                    G.build(nodes)
+                except Exception:   # noqa  the constructor rejects this spelling (e.g. TablePT wants str / number entries)
+                    return
+                out.append(_case(label, nodes, len(out), flag='exprobj', extra=['exprobj-' + sp] + list(extra)))
+            add('Constant:duration=' + tag, dict(k='Constant', dur=d, amps=[['A', 1]]))
+            add('Constant:amp=' + tag, dict(k='Constant', dur=4, amps=[['A', v], ['B', 'b']]))
+            add('Function:duration=' + tag, dict(k='Function', ex='a*t', dur=d, ch='A'))
+            add('Function:expression=' + tag, dict(k='Function', ex=tt, dur=4, ch='A'))
+            add('Table:time=' + tag, dict(k='Table', entries=[['A', [[0, 0], [d, 'v', 'linear'], [8, 0, 'hold']]]]))
+            add('Table:value=' + tag, dict(k='Table', entries=[['A', [[0, v], [4, 'v', 'linear']]]]))
+            add('Point:time+value=' + tag, dict(k='Point', points=[[0, v], [d, 'v', 'linear'], [8, v, 'hold']], chans=['A', 'B']))
+            if sp == 'str':
+                # an ExpressionVector keeps no text: its items are stored as printed by sympy (15 digits) - known finding
+                # float_precision_not_preserved (d); the vector value is the LAST entry so that it is sampled (t = 4 .. 7)
+                add('Point:vector-value=' + tag, dict(k='Point', points=[[0, 0], [4, [fv, 'w'], 'jump'], [8, [fv, 'w'], 'hold']],
+                                                      chans=['A', 'B']), extra=['float_prec'])
+            add('measurement=' + tag, dict(k='Constant', dur=8, amps=[['A', 1]], measurements=[['m', d, d]]))
+            add('three-in-sequence=' + tag, dict(k='Constant', id='c', dur=d, amps=[['A', v]]), dict(k='Sequence', subs=[0, 0, 0]))
+            add('Repetition:count=' + tag, _leaf('A', 0), dict(k='Repetition', body=0, count=w('n*(1.0 + 1.0)')))
+            add('ForLoop:prange=' + tag, dict(k='Table', entries=[['A', [[0, 'i'], [4, 'v', 'linear']]]]),
+                dict(k='ForLoop', body=0, idx='i', rng={'#prange': [w('a*(0.5 + 0.5)'), w('c*(1.0 + 1.0)'), 1]}))
+            add('ForLoop:range=' + tag, dict(k='Table', entries=[['A', [[0, 'i'], [4, 'v', 'linear']]]]),
+                dict(k='ForLoop', body=0, idx='i', rng=[0, w('n*(1.0 + 1.0)')]))
+            add('Mapping:pmap=' + tag, dict(k='Table', entries=[['A', [[0, 'a'], ['d', 'v', 'linear']]]]),
+                dict(k='Mapping', tmpl=0, pmap=[['v', v], ['d', d]]))
+            add('Parallel:over=' + tag, _leaf('A', 0), dict(k='Parallel', tmpl=0, over=[['B', v]]))
+            add('Parallel:over-time=' + tag, dict(k='Function', ex='sin(t)*v', dur=16, ch='A'),
+                dict(k='Parallel', tmpl=0, over=[['M', tt]]))
+            add('Arithmetic:scalar=' + tag, _leaf('A', 0), dict(k='Arithmetic', lhs={'pt': 0}, op='*', rhs=v))
+            add('Arithmetic:map=' + tag, _leaf('A', 0), dict(k='Arithmetic', lhs={'map': [['A', v]]}, op='+', rhs={'pt': 0}))
+            add('AtomicMulti:duration=' + tag, dict(k='Constant', dur=d, amps=[['A', 1]]), dict(k='Constant', dur=d, amps=[['B', 1]]),
+                dict(k='AtomicMulti', subs=[0, 1], dur=d))
+            add('Abstract:duration+integral=' + tag, dict(k='Abstract', defined_channels=['A'], parameter_names=['a', 'b', 'd', 'v'],
+                                                         duration=d, integral=[['A', v]]))
+        # derived templates: with_parallel_channels on an anonymous ParallelChannelPT rebuilds it from its own expressions
+        add2 = lambda label, *nodes: out.append(_case(label, [dict(n) for n in nodes], len(out), flag='exprobj', extra=['exprobj-derived']))
+        add2('Parallel:with_parallel_channels=' + ft, dict(k='Function', ex='sin(t)*v', dur=16, ch='A'),
+             dict(k='Parallel', tmpl=0, over=[['M', ft]], then_over=[['N', 1]]), dict(k='Sequence', subs=[1]))
+        add2('Parallel:with_parallel_channels-twice=' + fv, _leaf('A', 0),
+             dict(k='Parallel', tmpl=0, over=[['M', fv]], then_over=[['N', fv], ['M2', 'b']]), dict(k='Repetition', body=1, count=2))
+    return out
+
+
+def intval_cases(tier):
+    """round 5 (audit of the predicate of finding int_channel_key): integer channel ids where they are VALUES, not dict
+    keys - FunctionPT channel, PointPT channel list, MappingPT channel_mapping targets, AbstractPT defined_channels, and
+    compositions of such templates.  JSON keeps integers as values, so all of these must round trip (no known-finding flag);
+    before round 5 integer channel ids were generated only inside the flagged random stream, where every failure was filed
+    under the finding"""
+    out = []
+
+    def add(label, *nodes, extra=()):
+        nodes = [dict(n) for n in nodes]
+        try:
+            G.build(nodes)
+        except Exception:   # noqa
+            return
+        out.append(_case(label, nodes, len(out), flag='intval', extra=extra))
+    f0 = dict(k='Function', ex='a*t', dur='d', ch=0, measurements=[['m', 0, 1]])
+    f1 = dict(k='Function', ex='v', dur='d', ch=1)
+    add('Function:ch=0', f0)
+    add('Function:ch=7', dict(f0, ch=7))
+    add('Point:chans=0,1', dict(k='Point', points=[[0, [0, 'a']], ['d', ['v', 1], 'linear']], chans=[0, 1]))
+    add('Point:chans=1,0', dict(k='Point', points=[[0, [0, 'a']], ['d', ['v', 1], 'linear']], chans=[1, 0]))
+    add('Point:chans=0,A', dict(k='Point', points=[[0, 0], ['d', 'v', 'linear']], chans=[0, 'A']))
+    add('Mapping:target=0', _leaf('A', 0), dict(k='Mapping', tmpl=0, cmap=[['A', 0]]))
+    add('Abstract:channels=0,1', dict(k='Abstract', defined_channels=[0, 1], parameter_names=['a'], duration='d'))
+    add('Sequence:of-int-functions', f0, dict(f0, ex='v', id='x'), dict(k='Sequence', subs=[0, 1, 1]))
+    add('AtomicMulti:0,1', f0, f1, dict(k='AtomicMulti', subs=[0, 1]))
+    add('AtomicMulti:1,0', f1, f0, dict(k='AtomicMulti', subs=[0, 1]))
+    add('Repetition:int-function', f0, dict(k='Repetition', body=0, count='n'))
+    add('ForLoop:int-function', dict(f0, ex='i*t'), dict(k='ForLoop', body=0, idx='i', rng=3))
+    add('TimeReversal:int-function', f0, dict(k='TimeReversal', inner=0))
+    add('ArithmeticAtomic:int-functions', f0, dict(f0, ex='v'), dict(k='ArithmeticAtomic', lhs=0, rhs=1, op='+'))
+    add('Arithmetic:scalar-int-function', f0, dict(k='Arithmetic', lhs={'pt': 0}, op='*', rhs='b'))
+    # MappingPT completes its channel mapping to {0: 0}: an integer dict KEY after all = the known finding
+    add('Mapping:int-function-params', f0, dict(k='Mapping', tmpl=0, pmap=[['a', 'b*2']]), extra=['int_key'])
+    return out
+
+
+def round5_cases(tier):
+    return exprobj_cases(tier) + intval_cases(tier)
+
+
 def round4_cases(tier):
     """all deterministic families of round 4; the quick tier takes a fixed subsample of the large ones (every family, every
     class, every spelling stays represented), the thorough tier everything plus the small-scope exhaustive permutations"""
